@@ -19,8 +19,14 @@
 impl Token {
     pub closed spec fn tok(self) -> TokenInner { self.inner }
 }
+impl vstd::std_specs::cmp::PartialEqSpecImpl for Token {
+    open spec fn obeys_eq_spec() -> bool { true }
+    open spec fn eq_spec(&self, other: &Token) -> bool { *self == *other }
+}
 impl TokenFactory {
     pub closed spec fn next(&self) -> TokenInner { self.next_token }
+    /// the registration token of the slot this factory was made for
+    pub open spec fn reg(&self) -> RegistrationToken { RegistrationToken::of(self.next().forget()) }
     /// what one call of token() does, as a function
     pub open spec fn step(start: TokenInner, n: nat) -> TokenInner
         decreases n
@@ -59,11 +65,13 @@ pub proof fn lemma_subtokens_distinct(t: TokenInner, i: nat, j: nat)
 //@ open src/sys.rs / impl TokenFactory
 //@ item src/sys.rs / impl TokenFactory / fn new props=C20,C01,C07 ret=r
 //@ spec
-        ensures r.next().sid() == token.sid(), r.next().sver() == token.sver(), r.next().ssub() == 0,
+        ensures r.next().sid() == token.sid(), r.next().sver() == token.sver(), r.next().ssub() == 0, r.next() == token.forget(),
 //@ enditem
 //@ item src/sys.rs / impl TokenFactory / fn registration_token props=C20,C14 ret=r
+//@ entry
+        proof { broadcast use TokenInner::lemma_forget, RegistrationToken::lemma_of; }
 //@ spec
-        ensures r.tok().sid() == self.next().sid(), r.tok().sver() == self.next().sver(), r.tok().ssub() == 0,
+        ensures r.tok().sid() == self.next().sid(), r.tok().sver() == self.next().sver(), r.tok().ssub() == 0, r == self.reg(),
 //@ enditem
 //@ item src/sys.rs / impl TokenFactory / fn token props=C20,C01 ret=r
 //@ spec
@@ -72,6 +80,7 @@ pub proof fn lemma_subtokens_distinct(t: TokenInner, i: nat, j: nat)
                 final(self).next().sid() == old(self).next().sid(),
                 final(self).next().sver() == old(self).next().sver(),
                 final(self).next().ssub() == old(self).next().ssub() + 1,
+                final(self).reg() == old(self).reg(),
 //@ enditem
 //@ close
 
